@@ -12,7 +12,7 @@ PROPS = {
         "assumptions": ["h_eff constants for the optimised clearing maps are those of RFC 9380 8.8 / the crates' comments"],
     },
     "C06": {
-        "modules": ["Ark.Props.C06"],
+        "modules": ["Ark.Props.C06", "Ark.Props.C06b"],
         "crate": "harness2",
         "rule": "one op line per pairing / multi-pairing / Miller loop / final exponentiation / bilinearity test; distinct = distinct op line; non-trivial = non-identity inputs",
         "exhaustive": [],
